@@ -97,9 +97,11 @@ def run(ids, tier="quick"):
                 detected[pr] = {"exit": rc, "rules": rules, "wall_s": round(time.time() - t0, 1)}
                 print(f"{d}: ./check {pr} --tier {tier} -> exit {rc} {rules}")
                 sys.stdout.flush()
-            meta["my_checks"] = {"tier": tier, "results": detected, "caught": any(v["exit"] == 1 for v in detected.values())}
+            key = "my_checks" if os.environ.get("VERIF_SEED", "0") in ("", "0") else "my_checks_seed" + os.environ["VERIF_SEED"]
+            meta[key] = {"tier": tier, "results": detected, "caught": any(v["exit"] == 1 for v in detected.values())}
+            meta.setdefault("my_checks", meta[key])
             json.dump(meta, open(meta_p, "w"), indent=1)
-            res.append((d, meta["my_checks"]["caught"]))
+            res.append((d, meta[key]["caught"]))
         finally:
             shutil.rmtree(scratch, ignore_errors=True)
     print(res)
